@@ -314,7 +314,7 @@ func (sms *sqlMetadataStore) CompleteMultipartUpload(ctx context.Context, tx *sq
 		if err != nil {
 			return nil, err
 		}
-		if opts != nil && opts.IfNoneMatchStar && nullVersionEntity != nil {
+		if opts != nil && opts.IfNoneMatchStar && nullVersionEntity != nil && nullVersionEntity.IsLatest && !nullVersionEntity.IsDeleteMarker {
 			return nil, metadatastore.ErrPreconditionFailed
 		}
 		if nullVersionEntity != nil {
